@@ -323,7 +323,7 @@ impl Property for C06 {
     }
     fn cases(&self, tier: Tier) -> usize {
         match tier {
-            Tier::Quick => 16_000,
+            Tier::Quick => 40_000,
             Tier::Thorough => 400_000,
         }
     }
